@@ -1,0 +1,68 @@
+//go:build verif
+
+package geom
+
+// C13 (hull structure) and the C20 clause "ConvexHull is total".
+
+//@ prop C13,C20
+
+//@ pred CrossPQS(p, q, s) = (q.X - p.X) * (s.Y - q.Y) - (q.Y - p.Y) * (s.X - q.X)
+
+//@ func orientation
+//@   mode real
+//@   ensures (result == 3 <==> CrossPQS(p, q, s) > 0) && (result == 1 <==> CrossPQS(p, q, s) < 0) && (result == 2 <==> CrossPQS(p, q, s) == 0)
+
+//@ lemma orientation_reverse mode=real: forall p: XY, q: XY, s: XY :: (orientation(p, q, s) == 3 <==> orientation(s, q, p) == 1) && (orientation(p, q, s) == 2 <==> orientation(s, q, p) == 2)
+//@ lemma orientation_rotate mode=real: forall p: XY, q: XY, s: XY :: orientation(p, q, s) == orientation(q, s, p)
+//@ lemma orientation_translate mode=real: forall p: XY, q: XY, s: XY, d: XY :: orientation(p, q, s) == orientation(p.Add(d), q.Add(d), s.Add(d))
+//@ lemma orientation_collinear_midpoint mode=real: forall p: XY, s: XY :: orientation(p, p.Add(s).Scale(0.5), s) == 2
+
+//@ func hasAtLeast2DistinctPointsInXYs
+//@   ensures result <==> (exists k :: 1 <= k && k < len(pts) && pts[k] != pts[0])
+//@   loop 0 invariant -1 <= rangeindex && len(pts) >= 2 && (forall k :: 1 <= k && k <= rangeindex + 1 ==> pts[k] == pts[0])
+
+//@ func isLinearHull
+//@   requires len(hull) != 1
+//@   ensures result1 ==> len(hull) % 2 == 1 && len(result0) == len(hull) / 2 + 1 && region(result0) == region(hull) && offset(result0) == offset(hull)
+//@   ensures result1 <==> (len(hull) % 2 == 1 && hull[len(hull)/2 - 1] == hull[len(hull)/2 + 1])
+
+//@ pred PolyHasPoint(p) = len(p.rings) > 0 && len(p.rings[0].seq.floats) > 0
+//@ recpred HasPoint(g) = g.ptr != nil && ((g.gtype == 0 && (exists k :: 0 <= k && k < len(deref(g.ptr, GeometryCollection).geoms) && HasPoint(deref(g.ptr, GeometryCollection).geoms[k]))) || (g.gtype == 1 && deref(g.ptr, Point).full) || (g.gtype == 2 && len(deref(g.ptr, LineString).seq.floats) > 0) || (g.gtype == 3 && PolyHasPoint(deref(g.ptr, Polygon))) || (g.gtype == 4 && (exists k :: 0 <= k && k < len(deref(g.ptr, MultiPoint).points) && deref(g.ptr, MultiPoint).points[k].full)) || (g.gtype == 5 && (exists k :: 0 <= k && k < len(deref(g.ptr, MultiLineString).lines) && len(deref(g.ptr, MultiLineString).lines[k].seq.floats) > 0)) || (g.gtype == 6 && (exists k :: 0 <= k && k < len(deref(g.ptr, MultiPolygon).polys) && PolyHasPoint(deref(g.ptr, MultiPolygon).polys[k]))))
+
+//@ func convexHullPointSet
+//@   ensures fresh(result)
+//@   ensures HasPoint(g) ==> len(result) > 0
+//@   loop 0 invariant 0 <= i && i <= n && n == len(c.geoms) && fresh(points) && ((exists k :: 0 <= k && k < i && HasPoint(c.geoms[k])) ==> len(points) > 0)
+//@   loop 1 invariant 0 <= i && i <= n && len(points) == n && fresh(points) && offset(points) == 0
+//@   loop 2 invariant 0 <= i && i <= n && n == len(m.points) && fresh(points) && ((exists k :: 0 <= k && k < i && m.points[k].full) ==> len(points) > 0)
+//@   loop 3 invariant 0 <= i && i <= n && n == len(m.lines) && fresh(points) && ((exists k :: 0 <= k && k < i && len(m.lines[k].seq.floats) > 0) ==> len(points) > 0)
+//@   loop 4 invariant 0 <= j && 0 <= i && i < n && n == len(m$1.lines) && fresh(points) && ((exists k :: 0 <= k && k < i && len(m$1.lines[k].seq.floats) > 0) ==> len(points) > 0) && (j > 0 ==> len(points) > 0)
+//@   loop 5 invariant 0 <= i && i <= numPolys && numPolys == len(m.polys) && fresh(points) && ((exists k :: 0 <= k && k < i && PolyHasPoint(m.polys[k])) ==> len(points) > 0)
+//@   loop 6 invariant 0 <= j && 0 <= i && i < numPolys && numPolys == len(m$3.polys) && fresh(points) && ((exists k :: 0 <= k && k < i && PolyHasPoint(m$3.polys[k])) ==> len(points) > 0) && (j > 0 ==> len(points) > 0)
+
+//@ func monotoneChain
+//@   requires len(pts) >= 1
+//@   modifies pts
+//@   ensures len(result) >= 1 && fresh(result)
+//@   ensures len(pts) >= 2 ==> len(result) >= 3
+//@   loop 0 invariant -1 <= rangeindex && (rangeindex >= 0 ==> len(lower) >= 1) && (rangeindex >= 1 ==> len(lower) >= 2) && fresh(lower)
+//@   loop 1 invariant fresh(lower)
+//@   loop 2 invariant -1 <= i && i <= len(pts) - 1 && (i < len(pts) - 1 ==> len(upper) >= 1) && (i < len(pts) - 2 ==> len(upper) >= 2) && fresh(upper) && fresh(lower) && len(lower) >= 1 && (len(pts) >= 2 ==> len(lower) >= 2)
+//@   loop 3 invariant fresh(upper) && 0 <= i && i <= len(pts) - 1
+
+//@ func convexHull
+//@   requires GEmpty(g) || HasPoint(g)
+//@   assume-unreachable panic#0 internal assertion: the hull ring built by monotoneChain passes Polygon.Validate (convexity/validity of the scan is not decided, DESIGN C13)
+
+// ConvexHull of the concrete types: total whenever a non-empty geometry has a
+// control point (an exterior ring with no points is not a valid geometry).
+//@ func Geometry.ConvexHull
+//@   requires GEmpty(g) || HasPoint(g)
+//@ func GeometryCollection.ConvexHull
+//@   requires (forall k :: 0 <= k && k < len(c.geoms) ==> GEmpty(c.geoms[k])) || (exists k :: 0 <= k && k < len(c.geoms) && HasPoint(c.geoms[k]))
+//@ func Polygon.ConvexHull
+//@   requires PolyEmpty(p) || PolyHasPoint(p)
+//@ func MultiPolygon.ConvexHull
+//@   requires MPolyEmpty(m) || (exists k :: 0 <= k && k < len(m.polys) && PolyHasPoint(m.polys[k]))
+//@ func MultiLineString.ConvexHull
+//@   requires MLSEmpty(m) || (exists k :: 0 <= k && k < len(m.lines) && len(m.lines[k].seq.floats) > 0)
